@@ -539,3 +539,46 @@ func VPH_mainRoots() {
 	}
 	vp_Reach("end")
 }
+
+// VPH_mainOutput (C10, C11): stdout carries exactly the report - the table the
+// renderer produces for the scan result and the effective settings, or the
+// JSON document followed by one LF - and nothing else; stderr gets no report.
+func VPH_mainOutput() {
+	if vp_Native() {
+		vp_Reach("end")
+		return
+	}
+	cfg := &vpConfig{consulted: map[string]int{}}
+	cap := &vpCaptured{}
+	vpInstallMainStubs(cfg, cap, "refs/heads/x")
+	vp_Unstub("(*github.com/github/git-sizer/sizes.HistorySize).TableString")
+	hs := sizes.HistorySize{MaxParentCount: 15, MaxTreeEntries: 1999, UniqueBlobCount: 7}
+	vp_Stub("github.com/github/git-sizer/sizes.ScanRepositoryUsingGraph", func(ctx context.Context, repo *git.Repository, roots []sizes.Root, ns sizes.NameStyle, pm meter.Progress) (sizes.HistorySize, error) {
+		return hs, nil
+	})
+	mode := vp_Choice("mode", 4)
+	args := [][]string{{}, {"--verbose"}, {"--critical"}, {"--json", "--json-version=1"}}[mode]
+	var stdout, stderr bytes.Buffer
+	err := mainImplementation(context.Background(), &stdout, &stderr, args)
+	vp_Assert(err == nil, "runs")
+	if err != nil {
+		return
+	}
+	vp_Assert(stderr.Len() == 0, "nothing on stderr without --progress/--show-refs")
+	thr := []sizes.Threshold{1, 0, 30, 1}[mode]
+	if mode < 3 {
+		want := hs.TableString(nil, thr, sizes.NameStyleFull)
+		got := stdout.String()
+		// the refgroup rows depend on the grouper's groups, which have no tallies here: same text
+		vp_Assert(got == want, "stdout is exactly the table for the scan result and the effective threshold")
+		if mode == 2 {
+			vp_Assert(got == "No problems above the current threshold were found\n", "--critical on a harmless repository: the single 'no problems' line")
+		}
+	} else {
+		vp_Assert(vp_JSONCalls() == 1, "JSON v1: the measurements are marshalled once")
+		h2, ok := vp_LastJSON().(sizes.HistorySize)
+		vp_Assert(ok && h2.MaxParentCount == 15 && h2.MaxTreeEntries == 1999 && h2.UniqueBlobCount == 7, "JSON v1 marshals the scan result itself")
+		vp_Assert(stdout.String() == "null\n", "stdout is exactly the JSON document followed by one LF")
+	}
+	vp_Reach("end")
+}
